@@ -81,6 +81,17 @@ def drive(tier):
         for s in gen.confuse(base, r, 8):
             dec(s)
             check(s)
+    # the largest values of every length up to 300 characters (and the byte strings just below a power of 256)
+    for kz in list(range(45, 301)):
+        dec("z" * kz)
+        if kz % 4 == 0:
+            dec("1" * (kz % 3) + "z" * kz)
+            dec("z" * (kz - 1) + "y")
+            dec("y" + "z" * (kz - 1))
+    for nb in list(range(1, 221, 1 if tier == "thorough" else 3)):
+        enc(b"\xff" * nb)
+        enc(b"\x01" + bytes(nb))
+        enc(b"\x01\x03" + gen.rbytes(r, nb))
     for kz in list(range(1, 45)):
         dec("z" * kz)
         dec("z" * kz + "".join(r.choice(ALPHA) for _ in range(r.randrange(0, 6))))
